@@ -431,6 +431,9 @@ pub fn callset_strategy(p: GenParams) -> impl Strategy<Value = CallSet> {
                 1 => Just("chrUn_gl0002".to_string()),
                 1 => Just("GL000192.".to_string()),
                 1 => Just("HLA-A*01:01:".to_string()),
+                // the customary names of sex chromosomes and organelles, taken as they are (`=` marks
+                // an exact name): a contig's name says nothing about how its genotypes are to be read
+                2 => prop::sample::select(vec!["=X", "=Y", "=MT", "=chrX", "=chrY", "=chrM", "=chrMT", "=W", "=Z", "=x", "=chrx", "=Mt", "=Pt", "=chrUn"]).prop_map(|s| s.to_string()),
             ],
             1..=3,
         ),
@@ -443,7 +446,7 @@ pub fn callset_strategy(p: GenParams) -> impl Strategy<Value = CallSet> {
 
 pub fn finish_callset(contig_bases: Vec<String>, n_samples: usize, name_bases: Vec<String>, mut records: Vec<Record>) -> CallSet {
     // distinct, distinctive contig names
-    let contigs: Vec<String> = contig_bases.iter().enumerate().map(|(i, b)| if b.starts_with("ctg") || b.is_empty() || b.ends_with(|c: char| !c.is_ascii_alphanumeric()) || b == "chr" || b.starts_with("chrUn") { format!("{b}{}", 7 + i) } else { format!("ctg{b}{}", 7 + i) }).collect();
+    let contigs: Vec<String> = contig_bases.iter().enumerate().map(|(i, b)| if let Some(exact) = b.strip_prefix('=') { if contig_bases[..i].contains(b) { format!("{exact}{}", 7 + i) } else { exact.to_string() } } else if b.starts_with("ctg") || b.is_empty() || b.ends_with(|c: char| !c.is_ascii_alphanumeric()) || b == "chr" || b.starts_with("chrUn") { format!("{b}{}", 7 + i) } else { format!("ctg{b}{}", 7 + i) }).collect();
     let samples: Vec<String> = name_bases.iter().take(n_samples).enumerate().map(|(i, b)| format!("{b}x{i}")).collect();
     // positions: increasing within a contig; contigs in blocks
     let n_contigs = contigs.len();
